@@ -427,9 +427,12 @@ class ExprMixin:
             elem = container.elem
             if elem is Int and isinstance(item, VAny):
                 # Python equality between numbers: a bool equals its int value; a non-number equals no int
+                # (case split at the Bool level: no Seq-sorted ite, which the solvers handle badly -- see purify.py)
                 t = item.t
-                return z3.And(z3.Or(ValSort.is_I(t), ValSort.is_B(t)),
-                              z3.Contains(container.seq, z3.Unit(coerce(item, Int).t)))
+                has = lambda k: z3.Contains(container.seq, z3.Unit(k))  # noqa: E731
+                return z3.Or(z3.And(ValSort.is_I(t), has(ValSort.iv(t))),
+                             z3.And(ValSort.is_B(t), ValSort.bv(t), has(z3.IntVal(1))),
+                             z3.And(ValSort.is_B(t), z3.Not(ValSort.bv(t)), has(z3.IntVal(0))))
             return z3.Contains(container.seq, z3.Unit(elem.pack(item)))
         if isinstance(container, VRec) and container.ty.as_dict:
             ci = concrete_of(item)
